@@ -89,6 +89,10 @@ def worker(job):
     est = None if pi == "bootstrap" else rng.choice([["dem", "turnout"], ["turnout", "dem", "gop"], ["dem", "gop"]])
     case = gen.gen_case(rng, pi_method=pi, office=office, n_unexpected=0, special=False, blocklist=False, estimands=est,
                         alphas=rng.choice([[0.7, 0.9], [0.6, 0.8, 0.9]]), handle_unreporting="drop")
+    if pi == "nonparametric" and seed % 2 == 0:
+        case["params"]["model_parameters"]["robust"] = True          # the robust correction, with levels in ascending order
+    if pi == "gaussian" and seed % 2 == 0:
+        case["params"]["model_parameters"]["winsorize"] = True
     # two units whose baseline is zero for ONE vote-count estimand only (no dem votes last time, normal turnout)
     for b in rng.sample(case["baseline"], min(2, len(case["baseline"]))):
         b["baseline_gop"] = b["baseline_gop"] + b["baseline_dem"]
